@@ -12,3 +12,23 @@ package loop
 //@   noframe
 //@   requires [C17.term] depth <= MaxSCEVDepth
 //@   decreases [C17.term] 2 * (MaxSCEVDepth + 1 - depth)
+
+// ---- C12 / C03: a header phi is summarised as start + k*step only behind this gate
+//@ pred typeOfReg(b *ssa.BinOp) = purecall("(*golang.org/x/tools/go/ssa.register).Type", fieldaddr(b, "register"))
+//@ pred underT(t types.Type) = purecall("invoke:go/types.Type.Underlying", t)
+//@ pred integerT(t types.Type) = hasType(underT(t), "*types.Basic") && bitand(purecall("(*go/types.Basic).Info", dyn(underT(t), "*types.Basic")), types.IsInteger) != 0
+
+//@ pred predsOf(phi *ssa.Phi) = purecall("(*golang.org/x/tools/go/ssa.anInstruction).Block", fieldaddr(phi, "register.anInstruction")).Preds
+
+//@ func classifyIV
+//@   noframe
+//@   requires [C12.gate] [C03.iv] phi != nil && forall j in 0..len(predsOf(phi)) :: phi.Edges[j] != nil
+//@   ghost stepInv bool
+//@   init stepInv = false
+//@   call IsLoopInvariant update stepInv = result
+//@   mapupdate Inductions assert [C12.gate] [C03.iv] key == phi && binOp != nil && integerT(typeOfReg(binOp))
+//@   mapupdate Inductions assert [C12.gate] [C03.iv] (binOp.X == iface(phi, "*ssa.Phi") || (binOp.Y == iface(phi, "*ssa.Phi") && binOp.Op != token.SUB)) && (binOp.Op == token.ADD || binOp.Op == token.SUB || binOp.Op == token.MUL)
+//@   mapupdate Inductions assert [C12.gate] [C03.iv] stepInv && startVal != nil
+//@   mapupdate Inductions assert [C12.gate] [C03.iv] forall j in 0..len(predsOf(phi)) :: phi.Edges[j] == iface(binOp, "*ssa.BinOp") || phi.Edges[j] == startVal
+//@   loop 2 invariant [C12.gate] [C03.iv] 0 <= #i && #i <= len(predsOf(phi)) && forall j in 0..#i :: phi.Edges[j] == iface(binOp, "*ssa.BinOp") || phi.Edges[j] == startVal
+//@   loop 2 invariant [C12.gate] [C03.iv] startVal == nil ==> forall j in 0..#i :: phi.Edges[j] == iface(binOp, "*ssa.BinOp")
